@@ -84,20 +84,40 @@ def search(pid, repo, workdir, tier, level=None):
 
 
 def replay(path, repo):
-    """re-run the search for the property of the replay file against the current working tree and report whether the recorded input still fails"""
+    """Replay a violation file against the current working tree.
+    - with a recorded failing input: rebuild the scratch copy and re-run the bounded search of that property (deterministic):
+      the violation is reproduced iff the search fails again;
+    - without one (the verifier gave no model): re-run the proof of that property and report whether the named obligation still fails."""
+    import subprocess, tempfile
     j = json.load(open(path))
     pid = j['property']
     rec = j.get('failing_input')
-    workdir = os.path.join(VERIF, 'gen', pid, 'replay')
-    res = search(pid, repo, workdir, 'quick', level=(j.get('witness') or {}).get('level', 0))
-    print('replay of %s: obligation %s' % (path, j.get('obligation')))
+    print('replay of %s: property %s, obligation %s' % (path, pid, j.get('obligation')))
     if rec:
         print('recorded failing input:', json.dumps(rec))
-    else:
-        print('the verifier gave no failing input for this obligation (verifier output is in the file)')
-    if res.get('found'):
-        print('REPLAY-VIOLATION: %s' % json.dumps(res['input']))
-        print('VIOLATION property=%s replay=%s' % (pid, path))
+        workdir = os.path.join(VERIF, 'gen', pid + '-replay', 'witness')
+        res = search(pid, repo, workdir, 'quick', level=(j.get('witness') or {}).get('level', 0))
+        shutil.rmtree(os.path.join(VERIF, 'gen', pid + '-replay'), ignore_errors=True)
+        if res.get('found'):
+            print('REPLAY-VIOLATION: %s' % json.dumps(res['input']))
+            print('VIOLATION property=%s replay=%s' % (pid, path))
+            return 1
+        print('the recorded input no longer fails and the bounded search finds no other failing input on the current tree (%s)' % (res.get('error') or 'search finished'))
+        return 0
+    print('the verifier gave no failing input for this obligation; re-running the proof of %s on the current tree' % pid)
+    tmp = tempfile.mkdtemp(prefix='replay-', dir=os.path.join(VERIF, 'gen')) if os.path.isdir(os.path.join(VERIF, 'gen')) else tempfile.mkdtemp()
+    env = dict(os.environ, VERIF_GEN_TAG='-replay', VERIF_EVIDENCE_DIR=os.path.join(tmp, 'ev'), VERIF_REPLAY_DIR=os.path.join(tmp, 'rp'))
+    p = subprocess.run([os.path.join(VERIF, 'check'), pid, '--no-witness', '--no-self'], cwd=VERIF, env=env, capture_output=True, text=True)
+    shutil.rmtree(tmp, ignore_errors=True)
+    shutil.rmtree(os.path.join(VERIF, 'gen', pid + '-replay'), ignore_errors=True)
+    ob = str(j.get('obligation'))
+    still = [l for l in p.stdout.split('\n') if l.strip().startswith('failed obligation ' + ob)]
+    for l in p.stdout.split('\n'):
+        if l.startswith(('UNDECIDED', 'OK', 'KNOWN-FINDING')) or 'failed obligation' in l:
+            print('  ' + l)
+    if still:
+        print('REPLAY-VIOLATION: obligation %s still fails (no-failing-input-found)' % ob)
+        print('VIOLATION property=%s replay=%s no-failing-input-found' % (pid, path))
         return 1
-    print('no failing input found on the current tree by the bounded search (%s)' % (res.get('error') or 'finished'))
-    return 0
+    print('obligation %s is discharged (or no longer generated) on the current tree' % ob)
+    return 0 if p.returncode == 0 else p.returncode
